@@ -54,13 +54,14 @@ type c13Run struct {
 	sm protocol.StateMap
 	P  *protocol.Protocol
 
-	mu       sync.Mutex
-	cond     *sync.Cond
-	acc      []c13Acc
-	released int
-	handled  [][]byte
-	fails    []c13Fail
-	decoded  atomic.Int64
+	mu          sync.Mutex
+	cond        *sync.Cond
+	acc         []c13Acc
+	released    int
+	handled     [][]byte
+	fails       []c13Fail
+	decoded     atomic.Int64
+	transitions atomic.Int64
 
 	maxPending    int
 	maxHeldOther  int // harness model: bytes held apart from the message being processed
@@ -80,6 +81,18 @@ func c13Tracer(ev protocol.VerifEvent) {
 		return
 	}
 	switch ev.Kind {
+	case "transition":
+		// Schedule perturbation: the event is emitted by the state goroutine between
+		// computing the next state and publishing it, so sleeping here is the same as
+		// that goroutine being descheduled. It widens the window in which the read
+		// loop still sees the previous state (and its byte limit).
+		if n := int(r.transitions.Add(1)) - 1; n < len(r.c.TransDelays) {
+			if d := r.c.TransDelays[n]; d == 1 {
+				runtime.Gosched()
+			} else if d > 1 {
+				time.Sleep(time.Duration(d) * time.Microsecond)
+			}
+		}
 	case "recv_accounted":
 		r.mu.Lock()
 		r.acc = append(r.acc, c13Acc{State: ev.From.Name, Limit: ev.Limit, Pending: ev.Pending, MsgLen: ev.MsgLen})
@@ -265,21 +278,22 @@ func clipInts(v []int, n int) []int {
 // ---- case ---------------------------------------------------------------------------
 
 type c13Case struct {
-	Family   string // blob-server | blob-client | chainsync | blockfetch | incomplete | large-legal
-	Limit    int    // the limit the states of this family declare (0 = none)
-	Wire     [][]byte
-	Oversize int   // index of the message exceeding the limit, -1 = none
-	Cuts     []int // segment packaging: nil = one message per segment (split at 65535), else cycled segment sizes over the byte stream
-	Delays   []int
-	Gate     int
-	GateHoldUs int
-	RecvQueue  int
-	Sibling    int // number of messages for a second, unlimited protocol on the same muxer (blob-server only)
+	Family         string // blob-server | blob-client | chainsync | blockfetch | incomplete | large-legal
+	Limit          int    // the limit the states of this family declare (0 = none)
+	Wire           [][]byte
+	Oversize       int   // index of the message exceeding the limit, -1 = none
+	Cuts           []int // segment packaging: nil = one message per segment (split at 65535), else cycled segment sizes over the byte stream
+	Delays         []int
+	TransDelays    []int // per state transition (in order): delay injected into the state goroutine
+	Gate           int
+	GateHoldUs     int
+	RecvQueue      int
+	Sibling        int // number of messages for a second, unlimited protocol on the same muxer (blob-server only)
 	IncompleteKind string
-	Plan       *rawpeer.SeqPlan
-	plan       string
-	Procs      int
-	sumSleepUs int
+	Plan           *rawpeer.SeqPlan
+	plan           string
+	Procs          int
+	sumSleepUs     int
 }
 
 func (c *c13Case) sizes() []int {
@@ -293,7 +307,7 @@ func (c *c13Case) sizes() []int {
 func (c *c13Case) describe() map[string]any {
 	m := map[string]any{
 		"family": c.Family, "limit": c.Limit, "sizes": c.sizes(), "oversize_index": c.Oversize,
-		"segment_cuts": c.Cuts, "handler_delays_us": c.Delays, "gate_at": c.Gate, "recv_queue": c.RecvQueue,
+		"segment_cuts": c.Cuts, "handler_delays_us": c.Delays, "transition_delays_us": c.TransDelays, "gate_at": c.Gate, "recv_queue": c.RecvQueue,
 		"sibling_msgs": c.Sibling, "read_plan": c.plan, "gomaxprocs": c.Procs,
 	}
 	if c.IncompleteKind != "" {
@@ -567,6 +581,16 @@ func genC13Case(rt *rapid.T, thorough bool) *c13Case {
 			}
 		}
 		c.Delays = append(c.Delays, d)
+	}
+	if rapid.Bool().Draw(rt, "delayTransitions") {
+		nt := rapid.IntRange(1, 6).Draw(rt, "nTransDelays")
+		for i := 0; i < nt; i++ {
+			d := rapid.SampledFrom([]int{0, 1, 300, 2000}).Draw(rt, "transDelay")
+			if d > 1 {
+				c.sumSleepUs += d
+			}
+			c.TransDelays = append(c.TransDelays, d)
+		}
 	}
 	if nm > 0 && rapid.IntRange(0, 9).Draw(rt, "gated") < 6 {
 		c.Gate = rapid.IntRange(0, min(nm-1, 5)).Draw(rt, "gateAt")
